@@ -116,6 +116,9 @@ func parseCtrlMsg(str string) ctrlMsg {
 	str = strings.TrimSpace(str)
 
 	parts := strings.SplitN(str, " ", 2)
+	if len(parts) < 2 {
+		parts = append(parts, "") // No parameter
+	}
 	parts[0] = strings.ToUpper(parts[0])
 
 	msg := ctrlMsg{
